@@ -18,6 +18,12 @@ int main(int argc, char **argv) {
         fputs("{\"e\":\"enumBase\",\"h0\":", vt_out); vt_word(r0[b]); fprintf(vt_out, ",\"bc\":%d,\"res\":%d,\"distinct\":%d,\"allvalid\":%d,\"n\":", getBaseCellNumber(r0[b]), res, distinct, allvalid); vt_big(nz); fputs("}\n", vt_out);
         free(ch);
     }
+    /* every descendant of the 12 pentagon base cells two more resolutions down (all deleted-subsequence rotations, all five faces) */
+    { H3Index p0[12]; getPentagons(0, p0);
+      for (int res = full + 1; res <= full + 2 && res <= 15; res++) for (int b = 0; b < 12; b++) {
+          int64_t n = 0; cellToChildrenSize(p0[b], res, &n); H3Index *ch = calloc(n, 8); cellToChildren(p0[b], res, ch);
+          for (int64_t i = 0; i < n; i++) if (ch[i]) ev_rt(ch[i]);
+          free(ch); } }
     /* strata at the finer resolutions: pentagon disks, every cell along the 30 icosahedron edges (dense walk), random */
     for (int res = full + 1; res <= 15; res++) {
         CellVec cv = {0};
